@@ -87,6 +87,8 @@ type frame struct {
 	name    string
 	skipEnter *ssa.BasicBlock
 	entryAllocRef T
+	ncallAll    map[string]int
+	assertsSeen map[string]bool
 }
 
 type deferInfo struct {
@@ -737,7 +739,7 @@ func (e *Enc) runBody(fn *ssa.Function, args []Val, bind []Val, top bool, con *C
 	e.depth++
 	defer func() { e.depth-- }()
 	f := &frame{fn: fn, vals: map[ssa.Value]Val{}, ins: map[*ssa.BasicBlock][]edgeIn{}, bind: bind, params: args, top: top, con: con,
-		loops: findLoops(fn), ncall: map[string]int{}, nsafety: map[string]int{}, name: e.L.funcName(fn)}
+		loops: findLoops(fn), ncall: map[string]int{}, nsafety: map[string]int{}, name: e.L.funcName(fn), ncallAll: map[string]int{}, assertsSeen: map[string]bool{}}
 	e.frames = append(e.frames, f)
 	defer func() { e.frames = e.frames[:len(e.frames)-1] }()
 	for i, p := range fn.Params {
@@ -755,6 +757,13 @@ func (e *Enc) runBody(fn *ssa.Function, args []Val, bind []Val, top bool, con *C
 	order := e.rpo(fn)
 	f.ins[fn.Blocks[0]] = []edgeIn{{cond: e.reach, st: e.cur}}
 	e.runBlocks(f, order, nil)
+	if con != nil && e.dry == 0 {
+		for _, ca := range con.CallAsserts {
+			if !f.assertsSeen[fmt.Sprintf("%s#%d", ca.Callee, ca.N)] {
+				e.errs = append(e.errs, fmt.Sprintf("%s: contract-unbound: no call %s#%d for at_call", f.name, ca.Callee, ca.N))
+			}
+		}
+	}
 	return e.mergeReturns(f)
 }
 
